@@ -443,6 +443,46 @@ func checkSortDelegation(c *Ctx, r *Rec) {
 						bad = fmt.Sprintf("%s is carried out by %s", name, cn)
 					}
 				}
+				// the natural order is the RankValues of a collator over the elements themselves
+				if name == "SortValues" && bad == "" {
+					ast.Inspect(fd.Body, func(x ast.Node) bool {
+						_, mname, call, ok := methodCall(x)
+						if !ok || mname != "SortValuesWithRanker" || len(call.Args) != 1 {
+							return true
+						}
+						src := ast.Unparen(resolveInit(info, fd, call.Args[0]))
+						if lit, isLit := src.(*ast.FuncLit); isLit {
+							// a wrapper that only hands its two parameters on to RankValues is the same thing
+							if len(lit.Body.List) == 1 {
+								if rs, ok := lit.Body.List[0].(*ast.ReturnStmt); ok && len(rs.Results) == 1 {
+									if _, mn, rc, ok := methodCall(ast.Unparen(rs.Results[0])); ok && mn == "RankValues" && len(rc.Args) == 2 {
+										var lps []types.Object
+										for _, f := range lit.Type.Params.List {
+											for _, nm := range f.Names {
+												lps = append(lps, info.Defs[nm])
+											}
+										}
+										if len(lps) == 2 && identObj(info, rc.Args[0]) == lps[0] && identObj(info, rc.Args[1]) == lps[1] {
+											return true
+										}
+									}
+								}
+							}
+							bad = "the natural order is replaced by a ranking function written out here: it ranks the elements differently from the default collator the sorter uses for the same Go array (for instance by only a part of each element)"
+							return true
+						}
+						if se, ok := src.(*ast.SelectorExpr); ok && se.Sel.Name == "RankValues" {
+							// the collator must be one over the element type of the storage
+							ct := info.TypeOf(se.X)
+							if n := derefNamed(ct); n != nil && n.TypeArgs() != nil && n.TypeArgs().Len() == 1 {
+								if et := storageElem(storage.Type()); et != nil && !types.Identical(n.TypeArgs().At(0), et) {
+									bad = fmt.Sprintf("the natural order is taken from a collator over %s, not over the elements (%s): elements that differ only in what that collator does not see are ranked Equal", shortType(n.TypeArgs().At(0)), shortType(et))
+								}
+							}
+						}
+						return true
+					})
+				}
 			}
 			if bad == "" && len(calls) > 0 {
 				// an early return that skips the ordering may depend on the number of values only
@@ -1301,4 +1341,12 @@ func checkSorterKeepsNothing(c *Ctx, r *Rec, rule string, srt *types.Named) {
 	if n == 0 {
 		r.skip(rule, "agent."+srt.Obj().Name(), c.pos(srt.Obj().Pos()), "no method of the sorter takes a Go array")
 	}
+}
+
+// storageElem: the element type V of a storage field of type ArrayLike[V] / ListLike[V].
+func storageElem(t types.Type) types.Type {
+	if n := derefNamed(t); n != nil && n.TypeArgs() != nil && n.TypeArgs().Len() == 1 {
+		return n.TypeArgs().At(0)
+	}
+	return nil
 }
